@@ -77,50 +77,55 @@ fn o64(r: &mut Rng, near: u64) -> Value {
     match r.below(3) { 0 => Value::Null, 1 => json!(near.wrapping_add(r.below(3)).wrapping_sub(1)), _ => json!(r.boundary_u64()) }
 }
 
+fn gen_input(r: &mut Rng) -> Value {
+    let h = r.boundary_u32();
+    let t = r.boundary_u64();
+    let n = r.below(3) as usize + (r.below(4) == 0) as usize;
+    let mut spends = vec![];
+    for _ in 0..n {
+        let conf = if r.below(2) == 0 { h.wrapping_sub(r.below(4) as u32) } else { r.boundary_u32() };
+        let ts = if r.below(2) == 0 { t.wrapping_sub(r.below(4)) } else { r.boundary_u64() };
+        // pick exactly one active constraint most of the time so that a single wrong
+        // comparison is not masked by another failing one
+        let mut s = json!({"confirmed": conf, "rec_timestamp": ts, "missing_record": r.below(40) == 0});
+        let k = r.below(8);
+        let dh = h.wrapping_sub(conf);
+        let dt = t.wrapping_sub(ts);
+        match k {
+            0 => s["height_relative"] = o32(r, dh),
+            1 => s["seconds_relative"] = o64(r, dt),
+            2 => s["before_height_relative"] = o32(r, dh),
+            3 => s["before_seconds_relative"] = o64(r, dt),
+            4 => s["birth_height"] = o32(r, conf),
+            5 => s["birth_seconds"] = o64(r, ts),
+            6 => {}
+            _ => {
+                s["height_relative"] = o32(r, dh);
+                s["seconds_relative"] = o64(r, dt);
+                s["before_height_relative"] = o32(r, dh.wrapping_add(1));
+                s["before_seconds_relative"] = o64(r, dt.wrapping_add(1));
+            }
+        }
+        spends.push(s);
+    }
+    let mut input = json!({"height": h, "timestamp": t, "spends": spends,
+        "height_absolute": 0, "seconds_absolute": 0});
+    match r.below(6) {
+        0 => input["height_absolute"] = json!(h.wrapping_add(r.below(3) as u32).wrapping_sub(1)),
+        1 => input["seconds_absolute"] = json!(t.wrapping_add(r.below(3)).wrapping_sub(1)),
+        2 => input["before_height_absolute"] = o32(r, h),
+        3 => input["before_seconds_absolute"] = o64(r, t),
+        _ => {}
+    }
+    input
+}
+
 impl Target for T {
     fn search(&self, _function: &str, seed: u64, budget: &Budget) -> Option<Value> {
         let mut r = Rng::new(seed);
         while budget.left() {
             for _ in 0..2000 {
-                let h = r.boundary_u32();
-                let t = r.boundary_u64();
-                let n = r.below(3) as usize + (r.below(4) == 0) as usize;
-                let mut spends = vec![];
-                for _ in 0..n {
-                    let conf = if r.below(2) == 0 { h.wrapping_sub(r.below(4) as u32) } else { r.boundary_u32() };
-                    let ts = if r.below(2) == 0 { t.wrapping_sub(r.below(4)) } else { r.boundary_u64() };
-                    // pick exactly one active constraint most of the time so that a single wrong
-                    // comparison is not masked by another failing one
-                    let mut s = json!({"confirmed": conf, "rec_timestamp": ts, "missing_record": r.below(40) == 0});
-                    let k = r.below(8);
-                    let dh = h.wrapping_sub(conf);
-                    let dt = t.wrapping_sub(ts);
-                    match k {
-                        0 => s["height_relative"] = o32(&mut r, dh),
-                        1 => s["seconds_relative"] = o64(&mut r, dt),
-                        2 => s["before_height_relative"] = o32(&mut r, dh),
-                        3 => s["before_seconds_relative"] = o64(&mut r, dt),
-                        4 => s["birth_height"] = o32(&mut r, conf),
-                        5 => s["birth_seconds"] = o64(&mut r, ts),
-                        6 => {}
-                        _ => {
-                            s["height_relative"] = o32(&mut r, dh);
-                            s["seconds_relative"] = o64(&mut r, dt);
-                            s["before_height_relative"] = o32(&mut r, dh.wrapping_add(1));
-                            s["before_seconds_relative"] = o64(&mut r, dt.wrapping_add(1));
-                        }
-                    }
-                    spends.push(s);
-                }
-                let mut input = json!({"height": h, "timestamp": t, "spends": spends,
-                    "height_absolute": 0, "seconds_absolute": 0});
-                match r.below(6) {
-                    0 => input["height_absolute"] = json!(h.wrapping_add(r.below(3) as u32).wrapping_sub(1)),
-                    1 => input["seconds_absolute"] = json!(t.wrapping_add(r.below(3)).wrapping_sub(1)),
-                    2 => input["before_height_absolute"] = o32(&mut r, h),
-                    3 => input["before_seconds_absolute"] = o64(&mut r, t),
-                    _ => {}
-                }
+                let input = gen_input(&mut r);
                 if disagree(&input).0 {
                     return Some(input);
                 }
@@ -131,4 +136,66 @@ impl Target for T {
     fn replay(&self, input: &Value) -> Result<(bool, String), String> {
         Ok(disagree(input))
     }
+}
+
+/// C03 ground side: the real check_time_locks against the line-for-line reading of the rule on (a) a boundary grid - every
+/// kind of assertion exactly met, one short, one over, with sums that saturate - and (b) a fixed pseudo-random sample of the
+/// searcher's input distribution
+pub fn time_locks_ground(thorough: bool) -> crate::eval::EvalResult {
+    let mut res = crate::eval::EvalResult { obligations: 0, discharged: 0, failures: vec![], samples: vec![], exhaustive: true };
+    let mut inputs: Vec<(String, Value)> = vec![];
+    let hs: [u32; 6] = [0, 1, 1000, 0x7fff_ffff, u32::MAX - 1, u32::MAX];
+    let ts: [u64; 6] = [0, 1, 1_000_000, 0x7fff_ffff_ffff_ffff, u64::MAX - 1, u64::MAX];
+    for (hi, h) in hs.iter().enumerate() {
+        let t = ts[hi];
+        for dconf in [0u32, 1, 5] {
+            let conf = h.saturating_sub(dconf);
+            let rts = t.saturating_sub(dconf as u64);
+            for delta in [-1i64, 0, 1] {
+                let dh = (dconf as i64 + delta).max(0) as u32;
+                let dt = (dconf as i64 + delta).max(0) as u64;
+                for (kind, field, v) in [("height-relative", "height_relative", json!(dh)), ("seconds-relative", "seconds_relative", json!(dt)),
+                                         ("before-height-relative", "before_height_relative", json!(dh)), ("before-seconds-relative", "before_seconds_relative", json!(dt)),
+                                         ("birth-height", "birth_height", json!(conf.wrapping_add(delta as u32))), ("birth-seconds", "birth_seconds", json!(rts.wrapping_add(delta as u64)))] {
+                    let mut s = json!({"confirmed": conf, "rec_timestamp": rts, "missing_record": false});
+                    s[field] = v;
+                    inputs.push((format!("{kind}/h{hi}-c{dconf}-d{delta:+}"), json!({"height": h, "timestamp": t, "spends": [s], "height_absolute": 0, "seconds_absolute": 0})));
+                    // the same constraint on the second of two spends, the first unconstrained
+                    let s0 = json!({"confirmed": 0, "rec_timestamp": 0, "missing_record": false});
+                    let mut s1 = json!({"confirmed": conf, "rec_timestamp": rts, "missing_record": false});
+                    s1[field] = inputs.last().unwrap().1["spends"][0][field].clone();
+                    inputs.push((format!("{kind}/second-spend/h{hi}-c{dconf}-d{delta:+}"), json!({"height": h, "timestamp": t, "spends": [s0, s1], "height_absolute": 0, "seconds_absolute": 0})));
+                }
+                // sums that saturate: a relative lock far beyond the end of the range
+                for (kind, field, v) in [("height-relative-saturating", "height_relative", json!(u32::MAX - (dconf + 1).min(3) + 1)), ("seconds-relative-saturating", "seconds_relative", json!(u64::MAX - 1)),
+                                         ("before-height-relative-saturating", "before_height_relative", json!(u32::MAX)), ("before-seconds-relative-saturating", "before_seconds_relative", json!(u64::MAX))] {
+                    let mut s = json!({"confirmed": conf, "rec_timestamp": rts, "missing_record": false});
+                    s[field] = v;
+                    inputs.push((format!("{kind}/h{hi}-c{dconf}-d{delta:+}"), json!({"height": h, "timestamp": t, "spends": [s], "height_absolute": 0, "seconds_absolute": 0})));
+                }
+                // absolute locks
+                let ha = (*h as i64 + delta).clamp(0, u32::MAX as i64) as u32;
+                let ta = (t as i128 + delta as i128).clamp(0, u64::MAX as i128) as u64;
+                inputs.push((format!("height-absolute/h{hi}-d{delta:+}"), json!({"height": h, "timestamp": t, "spends": [], "height_absolute": ha, "seconds_absolute": 0})));
+                inputs.push((format!("seconds-absolute/h{hi}-d{delta:+}"), json!({"height": h, "timestamp": t, "spends": [], "height_absolute": 0, "seconds_absolute": ta})));
+                inputs.push((format!("before-height-absolute/h{hi}-d{delta:+}"), json!({"height": h, "timestamp": t, "spends": [], "height_absolute": 0, "seconds_absolute": 0, "before_height_absolute": ha})));
+                inputs.push((format!("before-seconds-absolute/h{hi}-d{delta:+}"), json!({"height": h, "timestamp": t, "spends": [], "height_absolute": 0, "seconds_absolute": 0, "before_seconds_absolute": ta})));
+            }
+        }
+        // a spend whose coin record is missing
+        inputs.push((format!("missing-record/h{hi}"), json!({"height": h, "timestamp": t, "spends": [{"confirmed": 0, "rec_timestamp": 0, "missing_record": true}], "height_absolute": 0, "seconds_absolute": 0})));
+    }
+    let mut r = Rng::new(0xc03_5eed);
+    for k in 0..(if thorough { 400_000 } else { 20_000 }) { inputs.push((format!("sample-{k}"), gen_input(&mut r))); }
+    for (name, input) in &inputs {
+        res.obligations += 1;
+        let (bad, msg) = disagree(input);
+        if !bad { res.discharged += 1; } else if res.failures.len() < 6 {
+            res.failures.push(json!({"id": format!("time_locks_ground/{name}"), "function": "check_time_locks", "message": format!("{name}: {msg}; input {input}"),
+                "clause": "check_time_locks accepts exactly when every absolute, relative (saturating) and birth assertion holds",
+                "cex": {"unit": "time_locks", "function": "check_time_locks", "input": input}}));
+        }
+    }
+    res.samples.push(json!({"obligation": format!("{} ground inputs: boundary grid over the ten assertion kinds (met / one short / one over, saturating sums, second spend, missing record) + fixed pseudo-random sample", res.obligations), "backend": "native-eval"}));
+    res
 }
